@@ -268,3 +268,19 @@ func PerturbWords(t *rapid.T, base *big.Int, wordBits uint) *big.Int {
 	}
 	return out
 }
+
+// IntBoth draws an integer in [0, m) whose boundary structure sits either in the canonical value or in its
+// Montgomery representation: with probability about 1/3 the pattern m0 from Int(m) is used as the Montgomery form, i.e.
+// the value returned is m0 * 2^-256 mod m (such values look random in canonical form but have, e.g., zero high limbs
+// or single-bit limbs in the representation the code computes on).
+func IntBoth(m *big.Int) *rapid.Generator[*big.Int] {
+	r := new(big.Int).Mod(two256, m)
+	rInv := new(big.Int).ModInverse(r, m)
+	return rapid.Custom(func(t *rapid.T) *big.Int {
+		v := Int(m).Draw(t, "v")
+		if rInv != nil && rapid.IntRange(0, 2).Draw(t, "montDomain") == 0 {
+			return v.Mod(v.Mul(v, rInv), m)
+		}
+		return v
+	})
+}
